@@ -407,7 +407,7 @@ func init() {
 			c.x.fail("address.Module with other than one derivation key")
 			return nil
 		}
-		k := simpSelect(app("seq.arr", keys.T), "0")
+		k := simpSelect(app("gseq.arr", keys.T), "0")
 		return c.ret(TV{T: app("addrModule", c.t(0), k), Ty: tBytes})
 	})
 	reg("(github.com/cosmos/cosmos-sdk/types.AccAddress).String", "AccAddress.String is a pure function of the bytes", func(c *CallCtx) []Outcome {
@@ -452,7 +452,7 @@ func init() {
 			c.x.fail("NewCoins with other than one coin")
 			return nil
 		}
-		coin := TV{T: simpSelect(app("seq.arr", l.T), "0"), Ty: elemType(ty)}
+		coin := TV{T: simpSelect(app("gseq.arr", l.T), "0"), Ty: elemType(ty)}
 		c.x.enc.DeclFun("validDenom", []string{"Bytes"}, "Bool")
 		c.x.panicUnless(c, and(app("validDenom", c.x.coinDenom(coin)), app(">=", c.x.coinAmt(coin), "0")), "NewCoins")
 		es := c.x.enc.Sort(elemType(ty))
@@ -465,7 +465,12 @@ func init() {
 		if coin, ok := c.x.singleCoin[c.t(0)]; ok {
 			return c.ret(TV{T: eq(c.x.coinAmt(coin), "0"), Ty: tBool})
 		}
-		return c.ret(TV{T: c.uf("coinsIsZero", "Bool", c.tv(0)), Ty: tBool})
+		// general list with at most one coin (obligation): empty or its only coin is zero
+		cs := c.tv(0)
+		c.x.addObl("call.pre", "coins_at_most_one@"+c.x.pos(c.instr.Pos()), "modelled coin lists have at most one coin", c.st, app("<=", seqLen(cs.T), "1"), nil)
+		c.st.Assume(app("<=", seqLen(cs.T), "1"))
+		coin0 := TV{T: simpSelect(app("gseq.arr", cs.T), "0"), Ty: elemType(cs.Ty)}
+		return c.ret(TV{T: or(eq(seqLen(cs.T), "0"), eq(c.x.coinAmt(coin0), "0")), Ty: tBool})
 	})
 	reg("(cosmossdk.io/math.Int).Uint64", "Int.Uint64 returns the value; it panics unless 0 <= i < 2^64", func(c *CallCtx) []Outcome {
 		c.x.panicUnless(c, and(app(">=", c.t(0), "0"), app("<", c.t(0), two64)), "Int.Uint64")
@@ -491,16 +496,18 @@ func init() {
 	reg("BankKeeper.SendCoins", "SendCoins(from,to,coins): either returns an error and leaves the bank unchanged, or returns nil, requires bal[from,d] >= a and moves exactly a of d from `from` to `to` for each coin (A-BANK)", func(c *CallCtx) []Outcome {
 		return c.x.bankTransfer(c, c.t(2), c.t(3), c.tv(4))
 	})
-	reg("BankKeeper.SendCoinsFromModuleToAccount", "SendCoinsFromModuleToAccount(module,to,coins) is SendCoins from moduleAddr(module) (A-BANK); additionally fails for blocked recipients", func(c *CallCtx) []Outcome {
-		return c.x.bankTransfer(c, c.x.moduleAddr(c.t(2)), c.t(3), c.tv(4))
+	reg("BankKeeper.SendCoinsFromModuleToAccount", "SendCoinsFromModuleToAccount(module,to,coins) is SendCoins from moduleAddr(module) (A-BANK); additionally fails for blocked recipients; may panic (demonic outcome, e.g. a receiving contract hook)", func(c *CallCtx) []Outcome {
+		return c.maybePanic(c.x.bankTransfer(c, c.x.moduleAddr(c.t(2)), c.t(3), c.tv(4)), "SendCoinsFromModuleToAccount")
 	})
 	reg("BankKeeper.SendCoinsFromAccountToModule", "SendCoinsFromAccountToModule(from,module,coins) is SendCoins to moduleAddr(module) (A-BANK)", func(c *CallCtx) []Outcome {
+		c.fundedOnly = c.x.topC != nil && c.x.topC.Opts["reclaim_succeeds_if_funded"]
 		return c.x.bankTransfer(c, c.t(2), c.x.moduleAddr(c.t(3)), c.tv(4))
 	})
 	reg("BankKeeper.MintCoins", "MintCoins(module,coins): error and no change, or nil and balance of moduleAddr(module) and supply both increase by the amounts (A-BANK)", func(c *CallCtx) []Outcome {
-		return c.x.bankMintBurn(c, c.x.moduleAddr(c.t(2)), c.tv(3), "+")
+		return c.maybePanic(c.x.bankMintBurn(c, c.x.moduleAddr(c.t(2)), c.tv(3), "+"), "MintCoins")
 	})
 	reg("BankKeeper.BurnCoins", "BurnCoins(module,coins): error and no change, or nil, requires the module balance to cover, and module balance and supply both decrease (A-BANK)", func(c *CallCtx) []Outcome {
+		c.fundedOnly = c.x.topC != nil && c.x.topC.Opts["reclaim_succeeds_if_funded"]
 		return c.x.bankMintBurn(c, c.x.moduleAddr(c.t(2)), c.tv(3), "-")
 	})
 	reg("BankKeeper.HasDenomMetaData", "HasDenomMetaData reads bank metadata only", func(c *CallCtx) []Outcome {
@@ -639,6 +646,15 @@ func (x *Exec) panicUnless(c *CallCtx, cond, what string) {
 func (x *Exec) bankTransfer(c *CallCtx, from, to string, coins TV) []Outcome {
 	h := handleOf(c.args[1])
 	coin, single := x.singleCoin[coins.T]
+	nonEmpty := "true"
+	if !single && coins.Ty != nil && strings.HasPrefix(x.enc.Sort(coins.Ty), "(GSeq") {
+		// general list: at most one coin (obligation); an empty list moves nothing
+		x.addObl("call.pre", "coins_at_most_one@"+x.pos(c.instr.Pos()), "modelled coin lists have at most one coin", c.st, app("<=", seqLen(coins.T), "1"), nil)
+		c.st.Assume(app("<=", seqLen(coins.T), "1"))
+		coin = TV{T: simpSelect(app("gseq.arr", coins.T), "0"), Ty: elemType(coins.Ty)}
+		nonEmpty = eq(seqLen(coins.T), "1")
+		single = true
+	}
 	return c.forkFail(func(st *State) []Value {
 		bal := x.bankBal(st, h)
 		if !single {
@@ -646,7 +662,7 @@ func (x *Exec) bankTransfer(c *CallCtx, from, to string, coins TV) []Outcome {
 			x.ghostSet(st, h, "bank.bal", x.enc.FreshConst("bank.bal@h", bankBalSort))
 			return []Value{nilErr()}
 		}
-		d, a := x.coinDenom(coin), x.coinAmt(coin)
+		d, a := x.coinDenom(coin), ite(nonEmpty, x.coinAmt(coin), "0")
 		kf := app("mkpair", from, d)
 		kt := app("mkpair", to, d)
 		st.Assume(implies(app(">", a, "0"), app(">=", app("select", bal, kf), a)))
@@ -654,12 +670,27 @@ func (x *Exec) bankTransfer(c *CallCtx, from, to string, coins TV) []Outcome {
 		b2 := app("store", b1, kt, app("+", app("select", b1, kt), a))
 		x.ghostSet(st, h, "bank.bal", b2)
 		return []Value{nilErr()}
-	}, func(st *State, err TV) []Value { return []Value{err} })
+	}, func(st *State, err TV) []Value {
+		if c.fundedOnly && single {
+			// assumption (listed): this transfer fails only when the sender's balance does not cover the amount
+			bal := x.bankBal(st, h)
+			st.Assume(app("<", app("select", bal, app("mkpair", from, x.coinDenom(coin))), x.coinAmt(coin)))
+		}
+		return []Value{err}
+	})
 }
 
 func (x *Exec) bankMintBurn(c *CallCtx, mod string, coins TV, op string) []Outcome {
 	h := handleOf(c.args[1])
 	coin, single := x.singleCoin[coins.T]
+	nonEmpty := "true"
+	if !single && coins.Ty != nil && strings.HasPrefix(x.enc.Sort(coins.Ty), "(GSeq") {
+		x.addObl("call.pre", "coins_at_most_one@"+x.pos(c.instr.Pos()), "modelled coin lists have at most one coin", c.st, app("<=", seqLen(coins.T), "1"), nil)
+		c.st.Assume(app("<=", seqLen(coins.T), "1"))
+		coin = TV{T: simpSelect(app("gseq.arr", coins.T), "0"), Ty: elemType(coins.Ty)}
+		nonEmpty = eq(seqLen(coins.T), "1")
+		single = true
+	}
 	return c.forkFail(func(st *State) []Value {
 		bal := x.bankBal(st, h)
 		sup := x.bankSupply(st, h)
@@ -669,7 +700,7 @@ func (x *Exec) bankMintBurn(c *CallCtx, mod string, coins TV, op string) []Outco
 			x.ghostSet(st, h, "bank.supply", x.enc.FreshConst("bank.supply@h", bankSupplySort))
 			return []Value{nilErr()}
 		}
-		d, a := x.coinDenom(coin), x.coinAmt(coin)
+		d, a := x.coinDenom(coin), ite(nonEmpty, x.coinAmt(coin), "0")
 		k := app("mkpair", mod, d)
 		if op == "-" {
 			st.Assume(app(">=", app("select", bal, k), a))
@@ -677,7 +708,13 @@ func (x *Exec) bankMintBurn(c *CallCtx, mod string, coins TV, op string) []Outco
 		x.ghostSet(st, h, "bank.bal", app("store", bal, k, app(op, app("select", bal, k), a)))
 		x.ghostSet(st, h, "bank.supply", app("store", sup, d, app(op, app("select", sup, d), a)))
 		return []Value{nilErr()}
-	}, func(st *State, err TV) []Value { return []Value{err} })
+	}, func(st *State, err TV) []Value {
+		if c.fundedOnly && single && op == "-" {
+			bal := x.bankBal(st, h)
+			st.Assume(app("<", app("select", bal, app("mkpair", mod, x.coinDenom(coin))), x.coinAmt(coin)))
+		}
+		return []Value{err}
+	})
 }
 
 // walkIntrinsic: Map.Walk with a callback. Without a walk invariant the effect is over-approximated:
